@@ -4,6 +4,7 @@ from __future__ import print_function
 
 import dataclasses
 import json
+import os
 import sys
 
 import consts
@@ -30,7 +31,7 @@ from code_data import (
 
 PRODUCER = (3, 7) <= PY <= (3, 10)
 HAVE_CKEY = ref.HAVE_CKEY
-H = 20.0
+H = 60.0  # per-call horizon (seconds): generous, it only turns non-termination into an observation
 
 
 def one_const_code_data(v):
@@ -143,6 +144,11 @@ class C08(Monitor):
         return spaces.spread(out, self.nprog())
 
     def cases(self):
+        if getattr(self, "stage", 1) == 2:
+            # second stage, other string-hash seed: values pickled by stage 1
+            if PRODUCER:
+                yield {"k": "unpickle", "s": "PK"}
+            return
         n = consts.size(self.tier)
         for i in range(n):
             yield {"k": "constrow", "s": "K", "i": i}
@@ -153,6 +159,8 @@ class C08(Monitor):
                 yield {"k": "progrow", "s": "PR", "i": i}
 
     def predicted(self):
+        if getattr(self, "stage", 1) == 2:
+            return 1 if PRODUCER else 0
         return consts.size(self.tier) + len(DATACLASSES) + (self.nprog() if PRODUCER else 0)
 
     # -- const pairs ----------------------------------------------------------------
@@ -197,6 +205,8 @@ class C08(Monitor):
             self.frozen(case, stats)
         elif k == "progrow":
             self.prog_row(case, stats)
+        elif k == "unpickle":
+            self.unpickle(case, stats)
 
     replay = check
 
@@ -291,6 +301,53 @@ class C08(Monitor):
                 stats.violation(case, "encoded-constant-differs", "LOAD_CONST %s encodes constant %s" % (short(ri["a"]), short(ca.co_consts[0])))
                 return
 
+    # -- values that crossed a process (and string-hash seed) boundary by pickle ------
+    def dump_pickles(self, i, case, row):
+        import pickle
+
+        if not getattr(self, "shared", None):
+            return
+        recs = []
+        for r, v, k in row:
+            if r in ("decode", "normalize", "json"):
+                hash(v)  # whatever the value caches about itself is cached now
+                recs.append((r, pickle.dumps(v)))
+        with open(os.path.join(self.shared, "c08_%s_%d.pkl" % (PYS, os.getpid())), "ab") as f:
+            pickle.dump((i, case, recs), f)
+
+    def unpickle(self, case, stats):
+        import pickle
+
+        files = sorted(fn for fn in os.listdir(self.shared) if fn.startswith("c08_%s_" % PYS))
+        n = 0
+        for fn in files:
+            with open(os.path.join(self.shared, fn), "rb") as f:
+                while True:
+                    try:
+                        i, pcase, recs = pickle.load(f)
+                    except EOFError:
+                        break
+                    code = spaces.build_code(pcase)
+                    d = CodeData.from_code(code)
+                    fresh = {"decode": d, "normalize": d.normalize(), "json": CodeData.from_json_data(json_cycle(d.to_json_data()))}
+                    for r, blob in recs:
+                        n += 1
+                        stats.evaluations += 1
+                        x = pickle.loads(blob)
+                        y = fresh[r]
+                        sub = {"k": "unpickle", "s": "PK", "program": pcase.get("src"), "route": r}
+                        if skey(x, True) != skey(y, True) or not (x == y):
+                            stats.violation(sub, "unpickled-differs", "a pickled %s value differs from the freshly computed one" % r)
+                            return
+                        if hash(x) != hash(y) or y not in set([x]):
+                            stats.violation(sub, "hash-contract-across-processes", "an unpickled CodeData (route %s) equals the freshly computed one but has another hash / is not found in a set" % r)
+                            return
+                        stats.nontriv(("pk", i, r))
+        if n == 0:
+            raise ref.HarnessError("stage 2 found no pickles from stage 1")
+        stats.sample("PK", {"pickled values compared": n}, per=1)
+        stats.outcomes["unpickled-equal-and-hash-equal"] += 1
+
     # -- immutability ---------------------------------------------------------------
     def frozen(self, case, stats):
         inst = sample_instances()[case["i"]]
@@ -382,6 +439,8 @@ class C08(Monitor):
         progs, V = self.values()
         i = case["i"]
         stats.sample("PR", {"program": progs[i]["src"], "routes": [r for r, v, k in V[i]]}, per=1)
+        if V[i] and case.get("j") is None:
+            self.dump_pickles(i, progs[i], V[i])
         if not V[i]:
             stats.skipped["not-compilable"] += 1
             return
